@@ -183,3 +183,19 @@ Theorem C01_misuse_unlock_breaks_exclusion :
             /\ holders_in s [0; 1] = 2.
 Proof. exact misuse_unlock_breaks_exclusion. Qed.
 Print Assumptions C01_misuse_unlock_breaks_exclusion.
+
+(** * The lease premise must cover an Unlock in progress
+
+    [leases_respected] counts as "live holder" a held Locker AND an Unlock that has not yet
+    reached its Delete.  This is needed: Unlock deletes the record by key (not by version), so if
+    the lease runs out between the entry of Unlock and the arrival of its Delete at the storage,
+    the late Delete removes the record of the next holder.  Under the weaker reading
+    [lease_held_only] (only held Lockers protect their record) exclusion fails: *)
+Theorem C01_late_delete_breaks_exclusion :
+  exists s, run (init (fun _ => 0)) late_delete_trace = Some s
+            /\ wf_programs (fun _ => 0) late_delete_trace
+            /\ respects lease_held_only (init (fun _ => 0)) late_delete_trace
+            /\ ~ leases_respected (fun _ => 0) late_delete_trace
+            /\ holders_in s [0; 1; 2] = 2.
+Proof. exact late_delete_breaks_exclusion. Qed.
+Print Assumptions C01_late_delete_breaks_exclusion.
